@@ -226,6 +226,11 @@ def judge(dev, op, kind, val, deliveries, cmd, V, where):
             V.append(dict(oracle="C07.cc-wrong-exception", where=where, detail=type(val).__name__,
                           expected="%s.CheckCondition" % dev_cls.__name__, actual=repr(val)[:160]))
             return
+        others = [n for n in S.NAMED_STATUS.values() if isinstance(getattr(dev_cls, n, None), type) and isinstance(val, getattr(dev_cls, n))]
+        if others:
+            V.append(dict(oracle="C07.status-indistinguishable", where=where, detail="check-condition",
+                          expected="%s.CheckCondition, caught by no other status' error class" % dev_cls.__name__,
+                          actual="%r is also caught by `except %s.%s`" % (val, dev_cls.__name__, others[0])))
         try:
             got = (val.data.get("sense_key") if isinstance(getattr(val, "data", None), dict) else None, val.asc, val.ascq)
         except Exception as e:  # noqa
@@ -260,7 +265,15 @@ def judge(dev, op, kind, val, deliveries, cmd, V, where):
             V.append(dict(oracle="C07.status-wrong-exception", where=where, detail="status=%#04x" % st,
                           expected="%s.%s" % (dev_cls.__name__, S.NAMED_STATUS[st]), actual=repr(val)[:120]))
         else:
-            WORLD.probe("named_status_ok")
+            # "distinguishable": a caller catching the error of another status (retry on BusyStatus, say) must not catch this one
+            others = [n for n in list(S.NAMED_STATUS.values()) + ["CheckCondition"] if n != S.NAMED_STATUS[st]
+                      and isinstance(getattr(dev_cls, n, None), type) and isinstance(val, getattr(dev_cls, n))]
+            if others:
+                V.append(dict(oracle="C07.status-indistinguishable", where=where, detail="status=%#04x" % st,
+                              expected="%s.%s, caught by no other status' error class" % (dev_cls.__name__, S.NAMED_STATUS[st]),
+                              actual="%r is also caught by `except %s.%s`" % (val, dev_cls.__name__, others[0])))
+            else:
+                WORLD.probe("named_status_ok")
     else:
         WORLD.probe("other_status_raised")
 
